@@ -232,4 +232,5 @@ def summarize(recs: list[dict], harness: Path, replay_func: str, what_prefix: st
         samples=samples[:6],
         cases=[r["func"] for r in recs if r["verdict"] in ("confirmed", "counterexample")],
         conditions=[{k: r.get(k) for k in ("func", "verdict", "s", "call")} for r in recs],
+        inconclusive_conditions=[x.split(":")[0] for x in inconcl],
     )
